@@ -76,6 +76,13 @@ def variants(case, rng, tier):
     for s_ in c_["scn"]["sims"]:
         s_["reuse"] = True
     out.append(c_)
+    # ... and the same simulators speaking API version 2.2 (behind mosaik's adapters); hybrid/event-based need v3 (type)
+    if all(s_["type"] == "time-based" for s_ in scn["sims"]):
+        c2 = json.loads(json.dumps(c_))
+        c2["id"] = case["id"] + ["local_reuse_api22"]
+        for s_ in c2["scn"]["sims"]:
+            s_["api"] = "2.2"
+        out.append(c2)
     v("remote", transport="remote", policy={"kind": "random", "early": 0.3})
     v("remote_nolazy", transport="remote", lazy=False, policy={"kind": "random", "early": 0.5})
     sids = [s["sid"] for s in scn["sims"]]
@@ -94,7 +101,9 @@ def gen_c04(seed, tier="quick"):
     scn = families.random_scenario(rng, parallel_delays=False, p_async=0.3 if seed % 4 == 3 else 0.0, nsims=(2, 4), until=(2, 4))
     scn["lazy"], scn["cache"] = True, True
     # every third scenario: produced values are None now and then (a legal value that must travel like any other)
-    case = {"id": [seed], "scn": scn, "seed": seed, "behaviour": {"kind": "random", "seed": seed, "p_none": 0.25 if seed % 3 == 1 else 0.0},
+    # ... and every third scenario: persistent values that RECUR (v, w, v, ...) instead of being unique per step
+    case = {"id": [seed], "scn": scn, "seed": seed,
+            "behaviour": {"kind": "random", "seed": seed, "p_none": 0.25 if seed % 3 == 1 else 0.0, "recur": (2 + seed % 2) if seed % 3 == 2 else 0},
             "policy": {"kind": "fifo"}}
     yield case
     for v in variants(case, rng, tier):
